@@ -9,6 +9,8 @@ from ..rules import lint, live, nul, shape
 from . import common
 
 EXPLANATION = (
+  "(FIN-decoder) the safe_area and boolean decoders of the filter configuration, interpreted on raw values, accept exactly 0..30 and JSON booleans; "
+  "(LINT-o) in the configuration modules and tt.py no value looked up in a mapping (configuration dictionary, parsed JSON) is replaced by a default through a truthiness test: a configured 0, False or empty string is a value, not an absence; "
   "Decides these clauses for every document and configuration: (LIVE) neither the animation remover nor the style whitelist nor the "
   "LCD filter mutates a container while iterating a live view of it, so no animation step or style survives by being skipped; "
   "(TAB-whitelist) for content elements and for regions, the style properties that can remain after the filter - whitelist keys of "
@@ -423,6 +425,9 @@ def run(ctx):
   check_repoint_order(ctx)
   check_merge_key(ctx)
   lint.unsat_ranges(ctx, common.scope(ctx, MODS), rule="LINT-c")
+  from ..rules import probes as _probes16
+  ctx.floor("FIN-decoder", "raw safe_area values decided", _probes16.check_config_decoders(ctx, only=("ttconv.filters.doc.lcd:_safe_area_decoder", "ttconv.config:decode_bool")), 10)
+  ctx.floor("LINT-o", "locals bound to a mapping look-up in the configuration modules", lint.falsy_mapping_default(ctx, [m for m in ctx.ix.modules.values() if m.name.endswith("config") or m.name == "ttconv.tt"]), 2)
   check_safe_area_range(ctx)
   fs_lcd = common.funcs(ctx, MODS)
   shape.check_falsy_zero(ctx, fs_lcd, {"safe_area", "get_begin", "get_end"})
